@@ -208,7 +208,14 @@ def parse_cbmc_text(text):
 
 def parse_playback(text):
     m = re.search(r"Concrete playback unit test for `[^`]*`:\n```\n(.*?)```", text, re.S)
-    return m.group(1) if m else None
+    if not m:
+        return None
+    src = m.group(1)
+    # Kani copies the failing assertion's text into a `///` comment; a message that spans two
+    # lines (rustfmt-split assert!) leaves its second line uncommented and the test does not
+    # compile.  Keep the test itself only.
+    k = src.find("#[test]")
+    return src[k:] if k >= 0 else src
 
 
 def classify(parsed):
